@@ -148,6 +148,7 @@ def oracle_all(case, obs):
     quota_bif = 0
     prev = None
     reductions = []                       # (time, cleared_recovery)
+    ce_max = [0, 0, 0]                    # highest ECN-CE count reported by the peer so far, per space (RFC 9002 B.7)
     last_pto = None                       # (count, interval, srtt, rttvar)
     now = 0
     dead = False
@@ -172,6 +173,7 @@ def oracle_all(case, obs):
         pre_rstart = prev.rstart if prev else -1
         pre_cwnd = prev.cwnd if prev else o.cwnd
         newly = []                        # (e, pn) newly acknowledged by this op
+        newly_live = []
         discards = []
         admitted = False
         if tag == 0 and o.flag == 1:
@@ -193,6 +195,9 @@ def oracle_all(case, obs):
             for pn in sent[e]:
                 if pn not in acked[e] and pn not in gone[e] and any(lo <= pn <= hi for hi, lo in rs):
                     newly.append((e, pn))
+            # packets already declared lost have left the sender's records (RFC 9002 A.7 / A.10): a late ACK for them
+            # is not "newly acknowledged" for the purposes of ECN processing
+            newly_live = [(ee, pn) for (ee, pn) in newly if pn not in lostset[ee]]
             for (_, pn) in newly:
                 acked[e].add(pn)
                 outstanding.pop((e, pn), None)
@@ -315,6 +320,16 @@ def oracle_all(case, obs):
         # --- pacer sanity
         if o.tokens > o.cap:
             msgs.append("tokens: op %d pacer tokens %d above capacity %d" % (k, o.tokens, o.cap))
+        # --- RFC 9002 B.7: the stored ECN-CE counter of a space is the highest value reported so far: it never goes down
+        #     (an older ACK overtaken by a newer one carries a smaller count), and it only takes values the peer reported
+        if prev is not None and not prev.short and not o.short:
+            for e3 in range(3):
+                if o.ce[e3] < prev.ce[e3]:
+                    msgs.append("ceregress: op %d the stored ECN-CE counter of space %d went down %d -> %d (a later ACK with the old count would be taken for a new congestion event)"
+                                % (k, e3, prev.ce[e3], o.ce[e3]))
+                elif o.ce[e3] != prev.ce[e3] and not (tag == 1 and min(a[0], 2) == e3 and a[2] == o.ce[e3]):
+                    msgs.append("cesource: op %d the stored ECN-CE counter of space %d changed %d -> %d without an ACK frame reporting that count"
+                                % (k, e3, prev.ce[e3], o.ce[e3]))
         prev = o
     return msgs
 
@@ -438,8 +453,11 @@ def mk_ack(rng, e, pns, nextpn, ce_state):
             break
     ce = -1
     if rng.random() < 0.15:
-        ce_state[e] += rng.choice([0, 1, 1, 3])
-        ce = ce_state[e]
+        if ce_state[e] > 0 and rng.random() < 0.3:
+            ce = max(0, ce_state[e] - rng.choice([1, 2]))     # an older ACK overtaken by a newer one: smaller count
+        else:
+            ce_state[e] += rng.choice([0, 1, 1, 3])
+            ce = ce_state[e]
     delay = rng.choice([0, 0, 100, 1000, 8000, 25000, 200000])
     return (1, [e, delay, ce] + rs)
 
